@@ -3,6 +3,7 @@ CONSTANTS Vocab <- VocabC
           MaxCrashes = 1
           AtomicSave = FALSE
           InitDisks <- InitDisksC
+          TempExclusive = FALSE
           AppendOnly = FALSE
 INIT DFInit
 NEXT DFNext
